@@ -599,7 +599,7 @@ Proof.
 Qed.
 
 (* the chains _add_procedure_calls collects from a statement made of segments, in its order *)
-Theorem raw_segs gs : wf_segs gs = true -> gs <> [] -> plain_text (sh_segs gs) = true ->
+Theorem raw_segs gs : wf_segs gs = true -> gs <> [] -> subcall_match (sh_segs gs) = None ->
   map norm_chain (chain_texts (render_segs gs)) =
   flat_map seg_heads0 gs ++ level_heads (flat_map subs_seg gs) (length (render_segs gs)).
 Proof.
@@ -611,7 +611,7 @@ Proof.
   assert (Hg : wf_seg g = true) by (cbn [forallb] in Hall; now apply andb_true_iff in Hall as [Hg _]).
   assert (Esh : exists c0 x0, sh_segs (g :: gs) = c0 :: x0).
   { destruct (sh_segs (g :: gs)) as [|c0 x0] eqn:E; [exfalso; exact (sh_segs_nonempty g gs Hg E)|eauto]. }
-  destruct Esh as (c0 & x0 & Esh). rewrite Esh. rewrite <- Esh. rewrite (subcall_plain _ Hplain).
+  destruct Esh as (c0 & x0 & Esh). rewrite Esh. rewrite <- Esh. rewrite Hplain.
   cbn [collect_levels]. rewrite (strip_levels _ 0 Hok). cbn [level_slices]. rewrite tree_segs_shallow, Esh, <- Esh.
   cbn [flat_map]. rewrite app_nil_r.
   rewrite (collect_levels_tree _ Hok). rewrite map_app. f_equal.
